@@ -1,5 +1,8 @@
 import YaqsModel.Basic.Parse
 import YaqsModel.Model.Attribution
+import YaqsModel.Model.Schmidt
+import YaqsModel.Model.Grid
+import YaqsModel.Basic.CRat
 /-!
   line protocol for the attribution model; an observable is `<kind>:<first site>`, its id is its position
 
@@ -8,6 +11,14 @@ import YaqsModel.Model.Attribution
     walkraw | o0 o1 …       →  the same on the list as given (a params object with a hand-made `sorted_observables`)
     stitch <T> | o0 o1 …    →  backend rows `result_j[k] = 1000·j + k` stitched and aggregated:
                                t<id>=v_0,v_1,…  for every user object in listing order, then the means
+
+  extension (Model.Schmidt — what get_entropy / get_schmidt_spectrum compute from the two site tensors of a cut):
+    theta <d> <χl> <χ> <d'> <χr> | a… | b…   →  `theta <rows> <cols>` then the entries `re im` (row-major) of
+                               `tensordot(a, b, (2, 1)).reshape(χl·d, d'·χr)`; a, b as `re im` pairs in C order of the
+                               numpy shapes (d, χl, χ) and (d', χ, χr)
+    entropy <bond> | b0 b1 …   →  `ent <x>`: `entropyCode` in binary64 (`Float.log`, eps = float64 tiny) on the singular
+                               values given as IEEE-754 bit patterns; x as the exact rational of the double, or `nan`
+    schpad <top> <bond> | s0 s1 …   →  `pad` then `top` tokens: the value or `nan`
 -/
 open Yaqs Yaqs.Attribution
 
@@ -44,6 +55,64 @@ def showRow (st : Store) (T : Nat) (id : Nat) : String :=
     | some v => showRat v
     | none => "none")
 
+/-! ### extension: entropy / Schmidt spectrum (Model.Schmidt) -/
+
+open Yaqs.Schmidt in
+/-- split a flat list into consecutive chunks of length `n` -/
+def chunks {α} (n : Nat) (l : List α) : List (List α) :=
+  if n = 0 then [] else
+    let rec go (fuel : Nat) (l : List α) : List (List α) :=
+      match fuel with
+      | 0 => []
+      | fuel + 1 => if l.isEmpty then [] else l.take n :: go fuel (l.drop n)
+    go l.length l
+
+def parseCRats? (ws : List String) : Option (List CRat) :=
+  match parseAll? parseRat? ws with
+  | some qs => if qs.length % 2 = 0 then some ((chunks 2 qs).map fun p => ⟨p.getD 0 0, p.getD 1 0⟩) else none
+  | none => none
+
+/-- flat C-order entries of a numpy array of shape `(d, l, r)` as `t[σ][l][r]` -/
+def tensor3? (d l r : Nat) (xs : List CRat) : Option (List (List (List CRat))) :=
+  if xs.length = d * l * r ∧ 0 < r ∧ 0 < l then some ((chunks (l * r) xs).map (chunks r)) else none
+
+def showCRat (z : CRat) : String := showRat z.re ++ " " ++ showRat z.im
+
+instance : Zero Float := ⟨0.0⟩
+
+/-- `np.finfo(np.float64).tiny` -/
+def tinyF : Float := Float.ofBits 0x0010000000000000
+
+def showFloatExact (x : Float) : String :=
+  match Grid.decode64 x.toBits.toNat with
+  | some q => showRat q
+  | none => "nan"
+
+def handleSchmidt (line : String) : String :=
+  match splitBar (words line) with
+  | [["theta", d, cl, c, d', cr], as, bs] =>
+    match d.toNat?, cl.toNat?, c.toNat?, d'.toNat?, cr.toNat?, parseCRats? as, parseCRats? bs with
+    | some d, some cl, some c, some d', some cr, some as, some bs =>
+      match tensor3? d cl c as, tensor3? d' c cr bs with
+      | some a, some b =>
+        let m := Schmidt.thetaMat cr a b
+        joinWith " " (["theta", toString m.length, toString (m.headD []).length] ++ m.flatten.map showCRat)
+      | _, _ => "bad-op"
+    | _, _, _, _, _, _, _ => "bad-op"
+  | [["entropy", bond], bits] =>
+    match bond.toNat?, parseAll? String.toNat? bits with
+    | some bond, some bits =>
+      "ent " ++ showFloatExact (Schmidt.entropyCode Float.log tinyF bond (bits.map fun b => Float.ofBits b.toUInt64))
+    | _, _ => "bad-op"
+  | [["schpad", top, bond], ss] =>
+    match top.toNat?, bond.toNat?, parseAll? parseRat? ss with
+    | some top, some bond, some ss =>
+      joinWith " " ("pad" :: (Schmidt.schmidtPad top bond ss).map fun o => match o with
+        | some q => showRat q
+        | none => "nan")
+    | _, _, _ => "bad-op"
+  | _ => "bad-op"
+
 def handle (line : String) : String :=
   match splitBar (words line) with
   | [["sort"], os] =>
@@ -67,6 +136,6 @@ def handle (line : String) : String :=
       let st := stitchAll sorted 0 results Store.empty
       joinWith " " (obs.map (fun o => showRow st T o.id) ++ obs.map (fun o => showRat (aggregate st T o.id)))
     | _, _ => "bad-op"
-  | _ => "bad-op"
+  | _ => handleSchmidt line
 
 def main : IO Unit := do lineLoop (← IO.getStdin) handle
